@@ -24,6 +24,10 @@ def C07(ctx):
     ctx.assumptions = TRUST_COMMON + ["reference = linear ov_read_float decode on a fresh handle over the same bytes, itself "
                                       "checked for contiguity (tell == running count, bitstream index monotone, per-link length == samples encoded)"]
     ctx.run("san", "vfseek", "c07", _n(ctx.tier, 800, 6000), extra_src=SPEC)
+    # begin-trimmed links (every granule position lowered by t, as a stream cutter leaves them): expected audio = the packet-level decode of the untrimmed packets from sample t on
+    ctx.rule += (" | mode c07b: chains of 1-3 links, one of them begin-trimmed by 1..4000 samples (less than its first audio page): totals, linear read (position == samples delivered, "
+                 "per-link count == length, audio == untrimmed decode from sample t), 25 (60) sample seeks each followed by 400 compared samples; keys carry the prefix begin-trimmed-link:")
+    ctx.run("san", "vfseek", "c07b", _n(ctx.tier, 160, 2400), extra_src=SPEC)
     return ctx.finish(min_evals=2000, min_buckets=40)
 
 
@@ -93,6 +97,9 @@ def C20(ctx):
     ctx.assumptions = TRUST_COMMON + ["refusal on 64-sample short blocks: every 8th case chains a model-made link with 64-sample blocks among encoder-made links and requires OV_EINVAL, flag clear, position/total unchanged and decoding identical to a twin that never asked",
                                       "for odd N the position after the last half-rate sample is N+1; not flagged"]
     ctx.run("san", "vfmisc", "c20", _n(ctx.tier, 400, 4000), extra_src=SPEC)
+    # begin-trimmed links (driver vfseek mode c07b): where the trim is applied exactly at full rate, the half-rate decode must deliver ceil(length/2) samples per link
+    ctx.rule += " | plus the half-rate count clause on begin-trimmed links (vfseek mode c07b; its position/audio clauses belong to C07 and are not gated here)"
+    ctx.run("san", "vfseek", "c07b", _n(ctx.tier, 160, 2400), extra_src=SPEC, gate=("C20",))
     return ctx.finish(min_evals=3000, min_buckets=25)
 
 
